@@ -69,6 +69,18 @@ class RecCrc:
     def digest(self):
         return ("digest", self)
 
+    def copy(self):
+        # crcmod: a copy continues from the current register value
+        c = RecCrc(self.name)
+        c.chunks = list(self.chunks)
+        return c
+
+    def new(self, arg=None):
+        c = RecCrc(self.name)
+        if arg is not None:
+            c.update(arg)
+        return c
+
 
 class SymFileHandle:
     size = 0
@@ -134,18 +146,29 @@ def h_chunks(ctx, M, ck):
             ctx.prop("value_error_only_for_zero_segment_len", seg == 0)
             return
         ctx.prop("zero_segment_len_is_refused", seg != 0, lambda: {"sig": "segment_len 0 accepted"})
-        rec = RecCrc.last
-        ctx.prop("crc_object_for_the_type", out == ("digest", rec) and rec.name == ck,
-                 lambda: {"sig": f"crcmod name {rec.name}"})
-        pos = 0
-        for i, c in enumerate(rec.chunks):
-            ctx.prop("chunk_is_file_content_in_order", sand(c.src == 0, c.start == pos, c.n >= 0),
-                     lambda: {"sig": f"chunk {i} is not the next part of the file"})
-            ctx.prop("chunk_within_chunk_length", c.n <= seg)
+
+        def check(out, rec, tag):
+            ctx.prop("crc_object_for_the_type", out == ("digest", rec) and rec.name == ck,
+                     lambda: {"sig": f"{tag}crcmod name {rec.name}"})
+            pos = 0
+            for i, c in enumerate(rec.chunks):
+                ctx.prop("chunk_is_file_content_in_order", sand(c.src == 0, c.start == pos, c.n >= 0),
+                         lambda: {"sig": f"{tag}chunk {i} is not the next part of the file"})
+                ctx.prop("chunk_within_chunk_length", c.n <= seg)
+                pos = pos + c.n
+            ctx.covered(f"chunks={len(rec.chunks)}")
+            ctx.prop("chunks_cover_exactly_the_prefix", pos == size,
+                     lambda: {"sig": f"{tag}bytes fed to the CRC are not exactly the prefix size_to_verify"})
+        check(out, RecCrc.last, "")
+        # the filestore object is used again: the second calculation starts from scratch
+        out2 = fs.calculate_checksum(ctype, ExistingPath("/x/file.bin"), size, seg)
+        rec2 = RecCrc.last
+        pos, ok = 0, out2 == ("digest", rec2)
+        for c in rec2.chunks:
+            ok = sand(ok, c.src == 0, c.start == pos)
             pos = pos + c.n
-        ctx.covered(f"chunks={len(rec.chunks)}")
-        ctx.prop("chunks_cover_exactly_the_prefix", pos == size,
-                 lambda: {"sig": "bytes fed to the CRC are not exactly the prefix size_to_verify"})
+        ctx.prop("second_use_starts_from_scratch", sand(ok, pos == size),
+                 lambda: {"sig": "second checksum on the same filestore object is not that of the prefix"})
         return
     # concrete twin: real file, real crcmod, against the bitwise reference
     d = tempfile.mkdtemp(prefix="vfc09-")
@@ -161,6 +184,8 @@ def h_chunks(ctx, M, ck):
         ctx.prop("zero_segment_len_is_refused", seg != 0, lambda: {"sig": "segment_len 0 accepted"})
         ctx.prop("chunks_cover_exactly_the_prefix", out == crc_ref(data[:size], ck),
                  lambda: {"sig": "real checksum differs from the reference CRC of the prefix"})
+        ctx.prop("second_use_starts_from_scratch", fs.calculate_checksum(ctype, p, size, seg) == out,
+                 lambda: {"sig": "second checksum on the same filestore object is not that of the prefix"})
         ctx.prop("verify_true_iff_equal", fs.verify_checksum(out, ctype, p, size, seg) is True
                  and fs.verify_checksum(bytes([out[0] ^ 1]) + out[1:], ctype, p, size, seg) is False)
     finally:
